@@ -66,7 +66,18 @@ func runC19(c *Ctx) {
 	var opts []mcp.ClientOption
 	opts = append(opts, mcp.WithClientLogger(nopLogger{}))
 	if useHeaders {
-		opts = append(opts, mcp.WithHTTPHeaders(http.Header{"X-Static": {"v1"}, "X-Static-Two": {"a", "b"}}))
+		// the static headers arrive through one option or through several
+		switch t.Draw(3) {
+		case 0:
+			opts = append(opts, mcp.WithHTTPHeaders(http.Header{"X-Static": {"v1"}, "X-Static-Two": {"a", "b"}}))
+			c.SetPlan("header_options", 1)
+		case 1:
+			opts = append(opts, mcp.WithHTTPHeaders(http.Header{"X-Static": {"v1"}}), mcp.WithHTTPHeaders(http.Header{"X-Static-Two": {"a", "b"}}))
+			c.SetPlan("header_options", 2)
+		default:
+			opts = append(opts, mcp.WithHTTPHeaders(http.Header{"X-Static-Two": {"a", "b"}}), mcp.WithHTTPHeaders(http.Header{}), mcp.WithHTTPHeaders(http.Header{"X-Static": {"v1"}}))
+			c.SetPlan("header_options", 3)
+		}
 	}
 	type beforeRec struct {
 		op, method, path string
@@ -137,23 +148,88 @@ func runC19(c *Ctx) {
 		return
 	}
 	s.Settle(20 * time.Millisecond) // GET stream
-	ctx, cancel = opCtx("call")
-	n0 = connsBefore()
-	_, cerr := cl.CallTool(ctx, callToolReq("roots", map[string]interface{}{"nonce": "n"})) // makes the server issue roots/list -> client answers
-	cancel()
-	if !expectBlocked("call", n0, cerr) && cerr != nil {
-		s.Violate("C19|call-failed|"+kind, "CallTool failed: %v", cerr)
+	// the operations after the handshake come in a drawn order and number; a streamable history may
+	// contain session terminations that the peer or the network refuses, after which the session is
+	// still the client's session
+	doCall := func() {
+		ctx, cancel := opCtx("call")
+		n0 := connsBefore()
+		_, cerr := cl.CallTool(ctx, callToolReq("roots", map[string]interface{}{"nonce": "n"})) // makes the server issue roots/list -> client answers
+		cancel()
+		if !expectBlocked("call", n0, cerr) && cerr != nil {
+			s.Violate("C19|call-failed|"+kind, "CallTool failed: %v", cerr)
+		}
 	}
-	ctx, cancel = opCtx("notify")
-	n0 = connsBefore()
-	nerr := cl.SendRootsListChangedNotification(ctx)
-	cancel()
-	if !expectBlocked("notify", n0, nerr) && nerr != nil {
-		s.Violate("C19|notify-failed|"+kind, "SendRootsListChangedNotification failed: %v", nerr)
+	doNotify := func() {
+		ctx, cancel := opCtx("notify")
+		n0 := connsBefore()
+		nerr := cl.SendRootsListChangedNotification(ctx)
+		cancel()
+		if !expectBlocked("notify", n0, nerr) && nerr != nil {
+			s.Violate("C19|notify-failed|"+kind, "SendRootsListChangedNotification failed: %v", nerr)
+		}
+	}
+	deleteFault := ""
+	s.Net.Script = func(conn *sim.Conn) *sim.Outcome {
+		if conn.Method != "DELETE" || deleteFault == "" {
+			return nil
+		}
+		f := deleteFault
+		deleteFault = ""
+		s.Fault("c19.delete-" + f)
+		switch f {
+		case "reset":
+			return &sim.Outcome{Kind: "reset"}
+		case "503":
+			return &sim.Outcome{Kind: "status", Status: 503, Body: "upstream unavailable"}
+		case "405":
+			return &sim.Outcome{Kind: "status", Status: 405, Body: "termination not supported"}
+		}
+		return &sim.Outcome{Kind: "status", Status: 500, Body: "oops"}
+	}
+	doFailedTerminate := func() {
+		deleteFault = []string{"reset", "503", "405", "500"}[t.Draw(4)]
+		ctx, cancel := opCtx("terminate")
+		n0 := connsBefore()
+		terr := cl.TerminateSession(ctx)
+		cancel()
+		if expectBlocked("terminate", n0, terr) {
+			deleteFault = ""
+			return
+		}
+		if terr == nil {
+			s.Violate("C19|refused-terminate-reported-as-success|"+kind, "the DELETE was refused, TerminateSession returned nil")
+		}
+		s.Probe("c19.refused_terminate")
+	}
+	var history []string
+	for n := 2 + t.Draw(4); n > 0; n-- {
+		op := []string{"call", "notify", "call", "notify", "failed-terminate"}[t.Draw(5)]
+		if op == "failed-terminate" && kind != "streamable" {
+			op = "call"
+		}
+		history = append(history, op)
+	}
+	if !strings.Contains(strings.Join(history, " "), "call") {
+		history = append(history, "call")
+	}
+	if !strings.Contains(strings.Join(history, " "), "notify") {
+		history = append(history, "notify")
+	}
+	c.SetPlan("history", history)
+	for _, op := range history {
+		switch op {
+		case "call":
+			doCall()
+		case "notify":
+			doNotify()
+		case "failed-terminate":
+			doFailedTerminate()
+		}
 	}
 	if kind == "streamable" {
-		ctx, cancel = opCtx("terminate")
-		n0 = connsBefore()
+		ctx, cancel := opCtx("terminate")
+		n0 := connsBefore()
 		terr := cl.TerminateSession(ctx)
 		cancel()
 		if !expectBlocked("terminate", n0, terr) && terr != nil {
